@@ -26,6 +26,7 @@ Consume == l <= Len(Trace) /\ l' = l + 1
 Flag(s) == viol' = viol \cup s
 Verdict == PrintT(<<"VERDICT", ToJson([id |-> roundId, viol |-> viol, valid |-> valid, discarded |-> discarded])>>)
 
+Max3(a, b, c) == IF a >= b /\ a >= c THEN a ELSE IF b >= c THEN b ELSE c
 Slack == 60000      \* µs: millisecond truncation of the age test, time stamp granularity, scheduling of the poll
 
 TraceInit == l = 1 /\ roundId = 0 /\ period = 50000 /\ lastM = 0 /\ alive = FALSE /\ released = FALSE /\ diedAt = -1
@@ -58,7 +59,7 @@ Poll ==
                     IF ctlOK THEN Flag({"live-lock-heartbeat-late"}) /\ UNCHANGED <<valid, discarded>>
                     ELSE discarded' = discarded + 1 /\ UNCHANGED <<viol, valid>>
           ELSE IF ~Ev.judged /\ ~alive /\ diedAt >= 0 /\ Ev.kind = "IsStale"
-                  /\ Ev.start > (IF lastM > diedAt THEN lastM ELSE diedAt) + 2 * period + Slack   \* a write already under way at the death still counts
+                  /\ Ev.start > Max3(lastM, diedAt, Ev.lastSign) + 2 * period + Slack   \* a write already under way at the death still counts
                THEN Flag({"dead-lock-not-reported-stale"}) /\ UNCHANGED <<valid, discarded>>
           ELSE valid' = valid + 1 /\ UNCHANGED <<viol, discarded>>
     /\ UNCHANGED <<roundId, period, lastM, alive, released, diedAt>>
